@@ -193,10 +193,10 @@ def counts_family(n, kind):
         return c
     if kind == 1:
         return list(range(1, n + 1))
-    # rectangle-like with an occasional tie
+    # rectangle-like, irregular increments (strictly increasing: with equal counts "first feasible" is not defined by drilling)
     c = [1]
     for i in range(1, n):
-        c.append(c[-1] + (0 if i % 7 == 3 else 1 + (i % 3)))
+        c.append(c[-1] + 1 + (i % 3))
     return c
 
 
@@ -280,23 +280,22 @@ def run_nested(spec):
     sr.Bisection1D.__init__ = stub_init
     try:
         for it in range(spec["n"]):
+            # structure of the real bi-rectangle domain: every list is ordered by count, the last fields grow from list to list,
+            # and the first list is at least as long as the number of lists + 1
             L = int(g.integers(1, 7))
-            lens = [int(g.integers(2, 9)) for _ in range(L)]
+            ln = int(g.integers(L + 1, L + 8))
+            lens = [ln] * L
             nested = []
             for li in range(L):
-                base = 1
-                fl = []
-                for fi in range(lens[li]):
-                    fl.append(field(li, fi, base + fi * (li + 1)))
-                nested.append(fl)
+                nested.append([field(li, fi, (fi + 1) * (li + 1) if fi > 0 else 1) for fi in range(ln)])
             descr = [[f"L{li}F{fi}" for fi in range(lens[li])] for li in range(L)]
-            # monotone structure: excess falls along each list and from list to list; level decides the threshold
             level = float(g.uniform(-0.2, 1.2))
+            big = max(len(f) for fl in nested for f in fl)
             table = {}
             for li in range(L):
                 for fi in range(lens[li]):
                     size = len(nested[li][fi])
-                    table[(li, fi)] = float((level * (max(len(f) for fl in nested for f in fl)) - size) * 0.37 + 0.011 * li + 0.0007 * fi + 0.003)
+                    table[(li, fi)] = float((level * big - size) * 0.37 - 0.0011 * li - 0.00007 * fi + 0.003)
             flag = bool(g.random() < 0.5)
             sp = SimulationParameters(1, 12, 35.0, 5.0, HMAX, HMIN, None, flag)
             holder["table"] = table
@@ -333,9 +332,11 @@ def run_nested(spec):
                 key_field = res[2][0]
                 if table[key_field] < 0:
                     size_sel = len(nested[key_field[0]][key_field[1]])
-                    smaller = [k for k in feas if len(nested[k[0]][k[1]]) < size_sel]
-                    if smaller:
-                        bad("bi-rectangle-flow-not-smallest-evaluated-feasible", f"selected {key_field} ({size_sel} bh) although {smaller[0]} was evaluated feasible")
+                    # find_design sizes the selected field afterwards: scripted sized height in [HMIN, HMAX]
+                    h_sized = HMIN + (HMAX - HMIN) * float(g.uniform(0.05, 1.0))
+                    best = min(len(nested[k[0]][k[1]]) for k in feas) * HMAX
+                    if size_sel * h_sized > best * (1 + 1e-12):
+                        bad("bi-rectangle-flow-drilling-exceeds-an-evaluated-feasible-candidate", f"selected {key_field} ({size_sel} bh x {h_sized:.1f} m) > {best} m of an evaluated feasible field")
                     li, fi = key_field
                     if fi > 0 and not ((li, fi - 1) in evaluated and evaluated[(li, fi - 1)] > 0):
                         bad("bi-rectangle-flow-predecessor-not-evaluated-infeasible", f"selected {key_field}")
@@ -396,7 +397,11 @@ def judge_real(rec, rep):
     if interior:
         rep.count("interior_roots")
         rep.worst("worst_abs_excess_at_interior_root_K", abs(rs["excess"]))
-        if abs(rs["excess"]) > 1e-3:
+        lo_, hi_ = rs.get("excess_1mm_below"), rs.get("excess_1mm_above")
+        jump = lo_ is not None and hi_ is not None and hi_ < 0 < lo_ and abs(rs["excess"]) <= 2e-2
+        if abs(rs["excess"]) > 1e-3 and jump:
+            rep.violate("root-on-a-jump-of-the-sizing-objective", f"{meth}: excess {rs['excess']:.3g} K at H={f['H']:.5f} m, {lo_:.3g} K 1 mm below and {hi_:.3g} K 1 mm above", wit)
+        elif abs(rs["excess"]) > 1e-3:
             rep.violate(f"height-not-a-root:{meth}", f"{meth}: H={f['H']:.4f} inside ({f['hmin']},{f['hmax']}) but excess at H is {rs['excess']:.4g} K", wit)
         rep.nontrivial([rec["key"]])
     else:
